@@ -534,6 +534,46 @@ func Settle() {
 
 func isSettling(t *Thread) bool { return t.desc == "settle" }
 
+// IsBlocked reports whether thread id is parked in an operation that cannot
+// proceed right now (for harness predicates such as "the server answers once
+// the client waits for it"). A finished thread is not blocked.
+func IsBlocked(id int) bool {
+	s := S
+	if s == nil || id < 0 || id >= len(s.threads) {
+		return false
+	}
+	t := s.threads[id]
+	if t.done || !t.started || t.pred == nil || isSettling(t) || strings.HasPrefix(t.desc, "harness:") {
+		return false
+	}
+	return !t.pred()
+}
+
+// Quiet reports whether every thread other than the ignored ones (pass the
+// caller's own id: the predicate is evaluated while another thread holds the
+// baton) is parked in an operation that cannot proceed right now.
+func Quiet(ignore ...int) bool {
+	s := S
+	if s == nil {
+		return true
+	}
+next:
+	for _, t := range s.threads {
+		if t.done || !t.started {
+			continue
+		}
+		for _, id := range ignore {
+			if t.ID == id {
+				continue next
+			}
+		}
+		if t.pred == nil || t.pred() {
+			return false
+		}
+	}
+	return true
+}
+
 // Cur returns the id of the running thread.
 func Cur() int {
 	if S == nil || S.cur == nil {
